@@ -32,6 +32,10 @@ var errPerm = errors.New("permanent-source-error")
 var errFn = errors.New("callback-error")
 var errFnOnce = errors.New("callback-error-once")
 
+// errors that WRAP the end sentinel are errors, not the end
+var errPermW = fmt.Errorf("permanent failure while reading: %w", stream.End)
+var errTransientW = fmt.Errorf("transient failure while reading: %w", stream.End)
+
 // sstream is the type-erased view of a stream under test.
 type sstream interface {
 	Next(ctx context.Context) (string, error)
@@ -303,24 +307,35 @@ func mkSrcs(inputs [][]int, faults []fault) []*sx.Src {
 	for i, in := range inputs {
 		s := &sx.Src{Name: fmt.Sprintf("src%d", i)}
 		var perm = -1
+		permErr := errPerm
 		trans := map[int]int{}
+		transW := map[int]int{}
 		for _, f := range faults {
 			if f.Src != i {
 				continue
 			}
-			if f.Kind == "perm" {
+			if f.Kind == "perm" || f.Kind == "permW" {
 				perm = f.Pos
+				if f.Kind == "permW" {
+					permErr = errPermW
+				}
 			}
 			if f.Kind == "transient" {
 				trans[f.Pos]++
+			}
+			if f.Kind == "transientW" {
+				transW[f.Pos]++
 			}
 		}
 		for j := 0; j <= len(in); j++ {
 			for k := 0; k < trans[j]; k++ {
 				s.Steps = append(s.Steps, sx.Step{Err: errTransient})
 			}
+			for k := 0; k < transW[j]; k++ {
+				s.Steps = append(s.Steps, sx.Step{Err: errTransientW})
+			}
 			if j == perm {
-				s.Final = errPerm
+				s.Final = permErr
 				break
 			}
 			if j < len(in) {
@@ -376,10 +391,10 @@ func run(r rig, p plan) outcome {
 		o.calls++
 		if err == nil {
 			o.outs = append(o.outs, v)
-		} else if err == stream.End || err == errPerm || err == errFn {
+		} else if err == stream.End || err == errPerm || err == errPermW || err == errFn {
 			o.end = err
 			break
-		} else if err == context.Canceled || err == errTransient || err == errFnOnce {
+		} else if err == context.Canceled || err == errTransient || err == errTransientW || err == errFnOnce {
 			// failed while waiting: costs nothing, ask again
 		} else {
 			o.foreign = err.Error()
@@ -406,7 +421,7 @@ func truncate(inputs [][]int, faults []fault) [][]int {
 		out[i] = inputs[i]
 	}
 	for _, f := range faults {
-		if f.Kind == "perm" {
+		if f.Kind == "perm" || f.Kind == "permW" {
 			out[f.Src] = inputs[f.Src][:f.Pos]
 			// sources after a permanently failing one are never reached by Join/Flatten
 			for j := f.Src + 1; j < len(out); j++ {
@@ -442,6 +457,9 @@ func check(prop string, r rig, p plan) *viol {
 	for _, f := range p.Faults {
 		if f.Kind == "perm" {
 			terminal, want = true, errPerm
+		}
+		if f.Kind == "permW" {
+			terminal, want = true, errPermW
 		}
 		if f.Kind == "cb" {
 			terminal, want = true, errFn
@@ -500,15 +518,15 @@ func check(prop string, r rig, p plan) *viol {
 			}
 			return &viol{"c08/reducer-swallowed-error/" + r.name, fmt.Sprintf("%s: returned (%s,nil) although a fault was injected", desc, o.result)}
 		}
-		if o.end != errPerm && o.end != errTransient && o.end != errFn && o.end != context.Canceled {
+		if o.end != errPerm && o.end != errPermW && o.end != errTransient && o.end != errTransientW && o.end != errFn && o.end != context.Canceled {
 			return &viol{"c08/reducer-foreign-error/" + r.name, fmt.Sprintf("%s: returned error %v", desc, o.end)}
 		}
 		return nil
 	}
 	if terminal {
-		reached := (want == errPerm && o.permHit > 0) || (want == errFn && o.cbFailed)
+		reached := ((want == errPerm || want == errPermW) && o.permHit > 0) || (want == errFn && o.cbFailed)
 		var bound []string
-		if want == errPerm {
+		if want == errPerm || want == errPermW {
 			bound = run(r, plan{Rig: p.Rig, Inputs: truncate(p.Inputs, p.Faults), Abandon: -1}).outs
 		} else {
 			bound = ref.outs
@@ -565,7 +583,7 @@ func faultPlans(r rig, ins [][]int, two bool) [][]fault {
 			break
 		}
 		for p := 0; p <= len(in); p++ {
-			singles = append(singles, fault{"perm", si, p}, fault{"transient", si, p})
+			singles = append(singles, fault{"perm", si, p}, fault{"transient", si, p}, fault{"permW", si, p}, fault{"transientW", si, p})
 		}
 	}
 	total := 0
@@ -590,7 +608,10 @@ func faultPlans(r rig, ins [][]int, two bool) [][]fault {
 	if two {
 		for i, a := range singles {
 			for _, b := range singles[i:] {
-				term := func(k string) bool { return k == "perm" || k == "cb" }
+				term := func(k string) bool { return k == "perm" || k == "permW" || k == "cb" }
+				if a.Kind == "transientW" || b.Kind == "transientW" || a.Kind == "permW" {
+					continue // the wrapped-end variants are explored as single faults and as the second of a pair only
+				}
 				if term(a.Kind) && term(b.Kind) || (a.Kind == "cbOnce" && b.Kind == "cbOnce") || (a.Kind == "cb" && b.Kind == "cbOnce") || (a.Kind == "cbOnce" && b.Kind == "cb") {
 					continue
 				}
@@ -609,10 +630,18 @@ func main() {
 	_ = xrand.Sample
 	rs := rigs()
 	if prop == "C09" {
-		rs = append(rs, rig{name: "xrand.SampleStream", nsrc: 1, reduce: func(ctx context.Context, s []*sx.Src, c *cb) (string, error) {
-			_, err := xrand.RSampleStream[int](ctx, rand.New(rand.NewSource(1)), s[0], 2)
-			return "", err
-		}})
+		for _, k := range []int{-1, 0, 1, 2, 5} {
+			k := k
+			rs = append(rs, rig{name: fmt.Sprintf("xrand.SampleStream(k=%d)", k), nsrc: 1, reduce: func(ctx context.Context, s []*sx.Src, c *cb) (res string, err error) {
+				defer func() {
+					if recover() != nil { // a panic for k < 0 is not this property's subject; ownership still is
+						res, err = "", errors.New("panicked")
+					}
+				}()
+				_, err = xrand.RSampleStream[int](ctx, rand.New(rand.NewSource(1)), s[0], k)
+				return "", err
+			}})
+		}
 	}
 	// pipelines of two int->int combinators
 	var intRigs []rig
